@@ -19,6 +19,17 @@ class Roles:
                  [qtype(p) for p in prog.params(f)] == ["struct instr *", "uint8_t *"]]
         self.encode = self._one(cands, "the encoder entry (struct instr *, uint8_t *)", prefer="assemble_asm")
         self.emitters = sorted(n for n in lib if self.encode in self.g.get(n, ()) and n != self.encode)
+        # an emitter may be written on top of another one (the counting emitter calling the plain one): same kind of signature
+        # (record and position pointer), calls an emitter
+        def emitter_sig(f):
+            ts = [qtype(p) for p in prog.params(f)]
+            return "struct instr *" in ts and "unsigned int *" in ts
+        direct = set(self.emitters)
+        for n, f in lib.items():
+            if n not in direct and n != self.encode and emitter_sig(f) and direct & set(self.g.get(n, ())) and \
+                    all(emitter_sig(lib[e]) for e in direct & set(self.g.get(n, ()))):
+                self.emitters.append(n)
+        self.emitters = sorted(set(self.emitters))
         if len(self.emitters) < 2:
             raise AnalysisBroken("expected the per-instruction emitters calling %s, found %s" % (self.encode, self.emitters))
         # room check: called by every emitter, compares with buffer_len
